@@ -120,6 +120,7 @@ type Interp struct {
 	race         raceState
 	keyCount     int
 	pkgInited    map[*ssa.Package]bool
+	atlas        map[string]*atlasEntry
 }
 
 func NewInterp(prog *ssa.Program, ctx *smt.Ctx, sol *smt.Solver) *Interp {
@@ -139,6 +140,7 @@ func (in *Interp) resetRun() {
 	in.nameCnt = map[string]int{}
 	in.ctxs = nil
 	in.pkgInited = map[*ssa.Package]bool{}
+	in.atlas = map[string]*atlasEntry{}
 	in.keyCount = 0
 	in.race = raceState{cells: map[interface{}]*shadow{}, objVC: map[interface{}]*vclock{}, reported: map[string]bool{}}
 	in.exploreOff = false
@@ -701,6 +703,9 @@ func (in *Interp) methodOf(t types.Type, m *types.Func) Value {
 	}
 	if t == keyType {
 		return in.keyMethod(m.Name())
+	}
+	if t == hashType {
+		return in.hashMethod(m.Name())
 	}
 	if t == errType {
 		return Value{K: KFunc, R: &Intrinsic{Name: "opaqueError." + m.Name(), F: func(in *Interp, fr *Frame, args []Value) (Value, bool) {
